@@ -1,13 +1,23 @@
 #!/bin/bash
 # usage: tools/seedtest.sh <patch.diff> <Cxx> [<Cyy> ...]
-# applies a seeded change to /repo's working tree, runs the quick checks of the named properties,
-# and undoes the change straight afterwards. Prints one line per check: caught / MISSED.
+# applies a seeded change, runs the quick checks of the named properties against the changed tree, and undoes the change
+# straight afterwards. Prints one line per check: caught / MISSED.
+# By default the change is applied to /repo's working tree. With SEEDTEST_WT=<dir> a scratch worktree of /repo at <dir>
+# (created if missing, left clean) is used instead and the checks read the code from there (CSVPATH_REPO), so that /repo
+# itself stays untouched while other runs are going on.
 set -u
 cd "$(dirname "$0")/.."
 patch="$1"; shift
-if ! git -C /repo diff --quiet; then echo "tracked files in /repo are modified; refusing" >&2; exit 2; fi
-git -C /repo apply "$patch" || { echo "patch does not apply" >&2; exit 2; }
-trap 'git -C /repo checkout -- .' EXIT
+tree=/repo
+if [ -n "${SEEDTEST_WT:-}" ]; then
+  tree="$SEEDTEST_WT"
+  if [ ! -d "$tree/.git" ] && [ ! -f "$tree/.git" ]; then git -C /repo worktree add -q --detach "$tree" HEAD || exit 2; fi
+  git -C "$tree" checkout -q --detach "$(git -C /repo rev-parse HEAD)" || exit 2
+  export CSVPATH_REPO="$tree"
+fi
+if ! git -C "$tree" diff --quiet; then echo "tracked files in $tree are modified; refusing" >&2; exit 2; fi
+git -C "$tree" apply "$patch" || { echo "patch does not apply" >&2; exit 2; }
+trap 'git -C "$tree" checkout -- .' EXIT
 for p in "$@"; do
   out=$(VERIF_SEED=${VERIF_SEED:-20260929} ./verify "$p" --tier ${TIER:-quick} 2>&1)
   rc=$?
